@@ -15,6 +15,7 @@ CFG = """CONSTANTS
   Probs = {probs}
 SPECIFICATION Spec
 INVARIANT SumBoundInv
+INVARIANT SamplingPossible
 INVARIANT Dump
 PROPERTY FailedCallsChangeNothing
 CHECK_DEADLOCK FALSE
@@ -57,9 +58,9 @@ def mk_tuple(t):
     return (noise_of(nid), (p8 / 8.0) if isfloat else int(p8 // 8))
 
 
-def replay(calls):
+def replay(calls, m=None):
     from graphiq.noise.monte_carlo_noise import McNoiseMap
-    m = McNoiseMap()
+    m = McNoiseMap() if m is None else m
     events = []
     for c in calls:
         ts = [[t["id"], t["p"] if t["f"] else 8 * (t["p"] // 8), bool(t["f"])] for t in c["ts"]] if c["ts"] and isinstance(c["ts"][0], dict) else c["ts"]
